@@ -29,6 +29,9 @@ pub struct AofEngine {
     
     /// Is background rewrite in progress?
     rewrite_in_progress: Arc<Mutex<bool>>,
+    
+    /// Database of the last logged command (None until the first one)
+    last_db: Arc<Mutex<Option<usize>>>,
 }
 
 /// AOF configuration
@@ -89,7 +92,36 @@ impl AofEngine {
             config,
             last_fsync: Arc::new(Mutex::new(Instant::now())),
             rewrite_in_progress: Arc::new(Mutex::new(false)),
+            last_db: Arc::new(Mutex::new(None)),
         }
+    }
+    
+    /// Log a command executed in database `db`. The log is replayed on one
+    /// connection, so a SELECT is written first whenever the database differs
+    /// from that of the previous logged command.
+    pub fn append_command_in_db(&self, db: usize, command: &[RespFrame]) -> Result<()> {
+        if !self.config.enabled {
+            return Ok(());
+        }
+        
+        let select_needed = {
+            let mut last_db = self.last_db.lock().unwrap();
+            if *last_db != Some(db) {
+                *last_db = Some(db);
+                true
+            } else {
+                false
+            }
+        };
+        
+        if select_needed {
+            self.append_command(&[
+                RespFrame::from_bytes(b"SELECT".to_vec()),
+                RespFrame::from_bytes(db.to_string().into_bytes()),
+            ])?;
+        }
+        
+        self.append_command(command)
     }
     
     /// Initialize AOF (open file for appending)
@@ -258,6 +290,7 @@ impl Clone for AofEngine {
             config: self.config.clone(),
             last_fsync: Arc::clone(&self.last_fsync),
             rewrite_in_progress: Arc::clone(&self.rewrite_in_progress),
+            last_db: Arc::clone(&self.last_db),
         }
     }
 }
